@@ -21,7 +21,9 @@ RULE = (
     "interleaving types and versions, flush() calls at random positions; values drawn per field from the SQLite-mappable classes "
     "(text incl. NUL/astral/quotes, 64-bit integers incl. both limits, finite floats and +-inf, bytes incl. empty, timestamps with "
     "UTC offsets) and a set of other field types for the 'text form' clause.  Every history is written once per batch size "
-    "{1,2,3,7,1000} while an independent sqlite3 connection is polled after every writer call.  Non-trivial = at least one record "
+    "{1,2,3,7,1000} (thorough: {1,2,3,4,5,7,16,1000}, 260 histories per shard of up to 144 records, one unmappable record at every "
+    "position of a run of 16, the reader-lock fault at flush and at close for batch sizes 2,3,4,7,1000, 8 working-directory children per "
+    "shard) while an independent sqlite3 connection is polled after every writer call.  Non-trivial = at least one record "
     "written; distinct = distinct (kind, sub-seed).  Oracle: transaction model over the polled row counts (V_k <= k, monotone, a "
     "change only at a multiple of the batch size (then V_k = k) or at the first record of a descriptor new to the writer (then "
     "V_k in {k-1, k}); V = k after flush() and after close()); schema = one table per type name with exactly the union of the "
@@ -43,13 +45,15 @@ ASSUMPTIONS = [
     "refused (then nothing of them is stored and nothing else is lost) or stored (then the unmappable field is not compared)",
     "the reader-lock fault shortens the writer's lock wait with PRAGMA busy_timeout through the writer's `con` attribute when it exists "
     "(otherwise sqlite3's default 5 s applies); a flush()/close() that raises under the lock is accepted, a silent return must have committed",
-    "a field never changes its type between the versions of a same-named type; versions may gain fields, drop fields and bring new ones",
+    "a field never changes its type between the versions of a same-named type (except text-like re-typing inside the identifier-coincident "
+    "pairs, e.g. stringlist a -> string a, both TEXT columns); versions may gain fields, drop fields and bring new ones",
     "integer-like field types outside the five classes (boolean, uint16, uint32, filesize, unix_file_mode) may come back either as "
     "their text form or as the same integer",
 ]
 SHARDS = {"quick": 8, "thorough": 16}
-BUDGET_S = {"quick": 150, "thorough": 900}
+BUDGET_S = {"quick": 150, "thorough": 2400}
 BATCHES = [1, 2, 3, 7, 1000]
+BATCHES_THOROUGH = [1, 2, 3, 4, 5, 7, 16, 1000]  # thorough: also batch sizes 4, 5 and 16
 
 ANCHORS = [
     "flow.record.adapter.sqlite:SqliteWriter.write",
@@ -86,7 +90,21 @@ def teardown(ctx):
 
 
 def generate(ctx):
-    n = ctx.scale(20, 150)
+    n = ctx.scale(20, 260)
+    if not ctx.quick:
+        # thorough: one unmappable record at EVERY position of a run of 16 (with 8 batch sizes each position is first / middle / last of
+        # a batch and on a boundary), both kinds of unmappable value; the reader-lock fault at flush and at close for every batch size
+        for pos in range(16):
+            if ctx.mine(pos):
+                for kindbad in ("int", "text"):
+                    yield {"k": "refuse", "n": 16, "bad_at": [pos], "bad": kindbad, "s": subseed("c18", ctx.seed, "refpos", pos, kindbad)}
+        li = 0
+        for at in ("close", "flush"):
+            for bs in (2, 3, 4, 7, 1000):
+                for first in (2, 3, 5):
+                    if ctx.mine(li):
+                        yield {"k": "locked", "at": at, "bs": bs, "first": first, "s": subseed("c18", ctx.seed, "lock", at, bs, first)}
+                    li += 1
     for i in range(n):
         kind = "mixed"
         if i % 10 == 7:
@@ -97,6 +115,8 @@ def generate(ctx):
             kind = "evolve"  # one type, three versions
         elif i % 10 == 1:
             kind = "sqlite-names"  # type names that start with "sqlite" without being the reserved "sqlite_" prefix
+        elif i % 10 == 8:
+            kind = "coincident"  # one type name whose later version has the SAME identifier hash (different field list)
         elif i % 10 == 4:
             kind = "refuse"  # unmappable records (refused by SQLite) between accepted ones, at every position of a batch
         elif i % 10 == 6 and i % 20 == 6:
@@ -105,9 +125,13 @@ def generate(ctx):
             kind = "dt-equal"  # timestamps that compare equal without being the same value, inside one database
         elif i % 10 == 9:
             kind = "sideways"  # later versions drop fields and bring new ones (not a superset of the table)
+        if kind == "coincident" and i % 20 == 8:
+            # at least one per shard alternates strictly between the two versions within one table
+            yield {"k": kind, "style": "alternate", "s": subseed("c18", ctx.seed, ctx.shard, i)}
+            continue
         yield {"k": kind, "s": subseed("c18", ctx.seed, ctx.shard, i)}
     # relative database paths while the application changes its working directory: one child process per shard (thorough: 3)
-    for r in range(1 if ctx.quick else 3):
+    for r in range(1 if ctx.quick else 8):
         yield {"k": "cwd", "s": subseed("c18", ctx.seed, ctx.shard, "cwd", r)}
 
 
@@ -243,7 +267,7 @@ def _value(rng, ftype):
         return rng.choice([0, 1, 1023, 2**40, 2**63 - 1])
     if ftype == "boolean":
         return rng.random() < 0.5
-    if ftype == "string[]":
+    if ftype in ("string[]", "stringlist"):
         return rng.choice([[], ["a"], ["a", "b c", "\u00e9"]])
     if ftype == "varint[]":
         return rng.choice([[], [1, 2, 3], [2**63 - 1]])
@@ -273,7 +297,9 @@ def build_case(case, thorough=False):
     if kind == "dt-equal":
         return build_dt_equal(rng, tnames, thorough)
     if kind == "refuse":
-        return build_refuse(rng, tnames, thorough)
+        return build_refuse(rng, tnames, thorough, case)
+    if kind == "coincident":
+        return build_coincident(rng, tnames, thorough, case.get("style"))
     versions = []
     for t in tnames:
         taken = {"a", "key", "select"} if kind in ("collide-fields", "collide-evolve") else set()
@@ -307,7 +333,7 @@ def build_case(case, thorough=False):
                 for n in _unique(rng, _field_name, rng.choice([1, 1, 2, 3]), taken):
                     fields.insert(rng.randint(0, len(fields)), (_ftype(rng), n))
             versions.append((t, fields))
-    n = rng.choice([0, 1, 2, 3, 5, 8, 13, 21, 25]) if not thorough else rng.choice([0, 1, 3, 8, 13, 21, 34, 55, 80])
+    n = rng.choice([0, 1, 2, 3, 5, 8, 13, 21, 25]) if not thorough else rng.choice([0, 1, 3, 8, 13, 21, 34, 55, 80, 144])
     if kind in ("sideways", "sqlite-names"):
         n = max(n, rng.choice([4, 6, 9]))
     plan = []
@@ -371,11 +397,54 @@ def build_dt_equal(rng, tnames, thorough):
     return versions, plan
 
 
+# descriptor pairs with one name and one 32-bit identifier hash but different field lists (the hash input is the plain
+# concatenation name + (field name + field type)..., so characters can move between a type and the next name)
+COINCIDENT_FIELDS = [
+    ([("string", "a"), ("string", "varintq")], [("varint", "astring"), ("string", "q")]),
+    ([("stringlist", "a"), ("string", "b")], [("string", "a"), ("string", "listb")]),
+    ([("uint16", "x"), ("string", "y")], [("string", "xuint16y")]),
+    ([("wstring", "a")], [("string", "aw")]),
+    ([("wstring", "filename")], [("string", "filenamew")]),
+    ([("string", "a"), ("string", "b")], [("string", "astringb")]),
+]
+
+
+def build_coincident(rng, tnames, thorough, forced_style=None):
+    """Schema evolution between two versions of one type name that share their identifier: both orders, interleaved."""
+    from flow.record import RecordDescriptor
+
+    versions = []
+    for t in (tnames[:1] if forced_style else tnames[:2]):
+        fa, fb = rng.choice(COINCIDENT_FIELDS)
+        if rng.random() < 0.5:
+            fa, fb = fb, fa
+        if RecordDescriptor(t, fa).identifier != RecordDescriptor(t, fb).identifier:
+            raise AssertionError("the coincident pair does not share its identifier")
+        versions.append((t, list(fa)))
+        versions.append((t, list(fb)))
+    n = rng.choice([4, 6, 9, 13]) if not thorough else rng.choice([6, 13, 21, 40])
+    style = forced_style or rng.choice(["alternate", "runs", "random"])
+    plan = []
+    for i in range(n):
+        base = 2 * rng.randrange(len(versions) // 2)
+        if style == "alternate":
+            vi = base + i % 2
+        elif style == "runs":
+            vi = base + (1 if i >= n // 2 else 0)
+        else:
+            vi = base + rng.randrange(2)
+        kw = {fname: _value(rng, ftype) for ftype, fname in versions[vi][1]}
+        plan.append(("w", vi, kw))
+        if rng.random() < 0.1:
+            plan.append(("f",))
+    return versions, plan
+
+
 BAD_INTS = [2**63, -(2**63) - 1, 2**64 + 5, 10**30]
 BAD_TEXTS = [b"caf\xe9".decode("utf-8", "surrogateescape"), "\udcff", "ok \udc80 tail"]
 
 
-def build_refuse(rng, tnames, thorough):
+def build_refuse(rng, tnames, thorough, case=None):
     """1-2 single-version types; a run of mappable records with unmappable ones (integer beyond 64 bits, text with a lone
     surrogate) at chosen positions - with five batch sizes per history a refusal falls on the first, a middle and the last
     record of a batch and exactly on a boundary.  The application catches the error and carries on."""
@@ -387,13 +456,16 @@ def build_refuse(rng, tnames, thorough):
     n = rng.choice([7, 9, 12]) if not thorough else rng.choice([9, 14, 21, 30])
     nbad = rng.choice([1, 1, 2, 3])
     bad_at = set(rng.sample(range(n), nbad))
+    forced = (case or {}).get("bad")
+    if case and case.get("bad_at") is not None:
+        n, bad_at = case["n"], set(case["bad_at"])
     plan = []
     for i in range(n):
         vi = rng.randrange(len(versions))
         fl = versions[vi][1]
         kw = {fname: _value(rng, ftype) for ftype, fname in fl}
         if i in bad_at:
-            if rng.random() < 0.5:
+            if (rng.random() < 0.5) if forced is None else forced == "int":
                 kw[fl[1][1]] = rng.choice(BAD_INTS)
                 plan.append(("w", vi, kw, fl[1][1]))
             else:
@@ -672,7 +744,8 @@ def check_content(ctx, versions, records, plan, path, bs, problems, accepted=Non
             bad("counts", "a table does not hold one row per record of its type", table=t, rows=len(tab["raw"]), records=len(recs))
             continue
         for i, ((vi, rec), row) in enumerate(zip(recs, tab["raw"])):
-            have = {fn for _, fn in versions[vi][1]} | set(RESERVED_TYPES)
+            have = {fn: ft_ for ft_, fn in versions[vi][1]}
+            have.update(RESERVED_TYPES)
             for cn, cell in zip(names, row):
                 if cn not in have:
                     if cell is not None:
@@ -680,7 +753,7 @@ def check_content(ctx, versions, records, plan, path, bs, problems, accepted=Non
                     continue
                 if skip.get(id(rec)) == cn:
                     continue  # an unmappable value that was stored anyway: what it became is not specified
-                ft = ftypes[(t, cn)]
+                ft = have[cn]  # the field's type in this record's version (coincident versions may re-type a name)
                 wv = getattr(rec, cn)
                 ctx.event("raw_cells_checked")
                 if wv is None:
@@ -761,8 +834,8 @@ def exec_locked(ctx, case):
     tname = _type_name(rng)
     names = _unique(rng, _field_name, 2, set())
     desc = RecordDescriptor(tname, [("string", names[0]), ("varint", names[1])])
-    bs = rng.choice([3, 4, 1000])
-    first = rng.choice([3, 4, 6])  # committed before the reader starts (explicit flush)
+    bs = case.get("bs") or rng.choice([3, 4, 1000])
+    first = case.get("first") or rng.choice([3, 4, 6])  # committed before the reader starts (explicit flush)
     later = rng.choice([1, 2]) if bs != 1000 else rng.choice([1, 2, 5])  # stay inside a partly filled batch
     fault_at = case.get("at") or rng.choice(["close", "flush"])
     ctx.ev()
@@ -944,7 +1017,8 @@ def execute(ctx, case):
     os.makedirs(d)
     dumps = {}
     problems = []
-    for bs in BATCHES:
+    batches = BATCHES if ctx.quick else BATCHES_THOROUGH
+    for bs in batches:
         ctx.ev()
         path = os.path.join(d, "b%d.db" % bs)
         res = run_once(ctx, versions, descs, records, plan, bs, path, problems)
@@ -967,7 +1041,7 @@ def execute(ctx, case):
                              {"batch_sizes": [ref[0], bs], "tables_differing": where[:5], "order": [ref[1]["order"], dd["order"]]}))
     ctx.event("dump_comparisons", max(0, len(dumps) - 1))
     ctx.event("histories")
-    ctx.event("records_written", nrec * len(BATCHES))
+    ctx.event("records_written", nrec * len(batches))
     ctx.event("kind:" + kind)
     import keyword
 
@@ -999,6 +1073,14 @@ def execute(ctx, case):
                 ctx.event("timestamps_same_wall_clock_other_fold")
             seen_dt.setdefault(key, set()).add(o)
             seen_dt.setdefault(wkey, set()).add(o)
+    if kind == "coincident":
+        prev = {}
+        for step in plan:
+            if step[0] == "w":
+                t_ = versions[step[1]][0]
+                if t_ in prev and prev[t_] != step[1]:
+                    ctx.event("coincident_version_switches")
+                prev[t_] = step[1]
     table_cols = {}
     for step in plan:
         if step[0] != "w":
@@ -1059,6 +1141,8 @@ def finish(ctx):
     ctx.require(ev.get("timestamps_equal_instant_other_offset", 0) > 0 and ev.get("timestamps_same_wall_clock_other_fold", 0) > 0
                 and ev.get("raw_timestamp_cells_checked", 0) > 0,
                 "no database held equal-instant timestamps with different offsets and a fold=0/fold=1 pair")
+    ctx.require(ev.get("kind:coincident", 0) > 0 and ev.get("coincident_version_switches", 0) > 0,
+                "no schema evolution between identifier-coincident versions of one type name")
     ctx.require(ev.get("unmappable_refused", 0) > 0, "no history in which an unmappable record was refused between accepted ones")
     ctx.require(ev.get("locked_cases", 0) > 0 and ev.get("locked_commit_raised", 0) + ev.get("locked_commit_returned", 0) > 0,
                 "no commit was attempted while another connection held an unfinished SELECT")
